@@ -70,6 +70,19 @@ func H_c07(p []int) {
 	vAssert(bytesEq([]byte(rs.ToBytes()), s0), "C07/tobytes")
 	vAssert(bytesEq([]byte(rb.ToString()), s0), "C07/tostring")
 	vAssert(bytesEq([]byte(rs.ToBytes().ToString()), s0), "C07/roundtrip")
+	if len(s0) > 0 {
+		// a string obtained from the byte-slice variant is a value: it does
+		// not change when the slice is reused afterwards
+		scratch := append([]byte{}, s0...)
+		early := redact.RedactableBytes(scratch).ToString()
+		for k := range scratch {
+			scratch[k] = 'Z'
+		}
+		vAssert(bytesEq([]byte(early), s0), "C07/tostring-is-a-copy")
+		early2 := redact.RedactableString(s0).ToBytes()
+		early2[0] = 'Z'
+		vAssert(bytesEq([]byte(redact.RedactableString(s0)), s0), "C07/tobytes-is-a-copy")
+	}
 	// well-formed strings
 	wf, _ := wfls(s)
 	if wf {
